@@ -11,7 +11,7 @@ use std::sync::Arc;
 use std::time::Duration;
 
 use crate::cancel::Cancel;
-use crate::coroutine_impl::{co_cancel_data, run_coroutine, CoroutineImpl, EventSource};
+use crate::coroutine_impl::{co_get_handle, run_coroutine, CoroutineImpl, EventSource};
 use crate::scheduler::get_scheduler;
 use crate::sync::atomic_dur::AtomicDuration;
 use crate::sync::AtomicOption;
@@ -203,7 +203,15 @@ impl Drop for Park {
 impl EventSource for Park {
     // register the coroutine to the park
     fn subscribe(&mut self, co: CoroutineImpl) {
-        let cancel = co_cancel_data(&co);
+        // once the coroutine is published it may be resumed, finish and drop
+        // its last handle on another thread: hold a handle to keep the cancel
+        // data alive
+        let handle = co_get_handle(&co);
+        let cancel = handle.get_cancel();
+        // register the cancel data *before* the coroutine is published, so
+        // that a late registration can never overwrite that of a later wait
+        cancel.set_co(self.wait_co.clone());
+
         // if we share the same park, the previous timer may wake up it by false
         // if we not deleted the timer in time
         let timeout_handle = self
@@ -224,11 +232,9 @@ impl EventSource for Park {
             return self.fast_wake_up();
         }
 
-        // register the cancel data
-        cancel.set_co(self.wait_co.clone());
         // re-check the cancel status
         if cancel.is_canceled() {
-            unsafe { cancel.cancel() };
+            Cancel::cancel_slot(&self.wait_co);
         }
     }
 
